@@ -97,4 +97,60 @@ func c11Server(c *Ctx, r *Rng) {
 		}
 		srv.Shutdown()
 	}
+	c11EmptyKeyTable(c, r)
+}
+
+// c11EmptyKeyTable: a server whose key table is there but empty knows no key: TsigStatus of any signed request is an
+// error (and the handler can see that), never nil.
+func c11EmptyKeyTable(c *Ctx, r *Rng) {
+	secB64 := base64.StdEncoding.EncodeToString(r.Bytes(32))
+	for _, network := range []string{"udp", "tcp"} {
+		status := make(chan string, 4)
+		h := dns.HandlerFunc(func(w dns.ResponseWriter, req *dns.Msg) {
+			if req.IsTsig() != nil {
+				status <- fmt.Sprint(w.TsigStatus())
+			} else {
+				status <- "unsigned"
+			}
+			m := new(dns.Msg)
+			m.SetReply(req)
+			w.WriteMsg(m)
+		})
+		srv := &dns.Server{Handler: h, TsigSecret: map[string]string{}, ReadTimeout: 2 * time.Second}
+		var addr string
+		if network == "udp" {
+			pc, err := net.ListenPacket("udp", "127.0.0.1:0")
+			if err != nil {
+				continue
+			}
+			srv.PacketConn, addr = pc, pc.LocalAddr().String()
+		} else {
+			l, err := net.Listen("tcp", "127.0.0.1:0")
+			if err != nil {
+				continue
+			}
+			srv.Listener, addr = l, l.Addr().String()
+		}
+		started := make(chan struct{})
+		srv.NotifyStartedFunc = func() { close(started) }
+		go srv.ActivateAndServe()
+		<-started
+		q := new(dns.Msg)
+		q.SetQuestion("nokey.example.", dns.TypeA)
+		q.SetTsig("some-key.", dns.HmacSHA256, 300, time.Now().Unix())
+		if reqWire, _, err := dns.TsigGenerate(q, secB64, "", false); err == nil {
+			if conn, err := net.Dial(network, addr); err == nil {
+				co := &dns.Conn{Conn: conn}
+				co.Write(reqWire)
+				got := "handler not reached"
+				select {
+				case got = <-status:
+				case <-time.After(2 * time.Second):
+				}
+				conn.Close()
+				c.Pred("server", "unknown-key-is-an-error:empty-key-table", network, got != "<nil>" && got != "unsigned", got, "an error (ErrSecret)", true)
+			}
+		}
+		srv.Shutdown()
+	}
 }
